@@ -679,10 +679,20 @@ class Source:
             raise XlateError(f"{self.rel}::{header}: associated type `{name}` not found (or ambiguous)")
         return ms[0].group(1).strip()
 
-    def const(self, header, name):
-        """`const NAME: type = expr;` directly inside header's braces (or anywhere inside, for a fn header)"""
+    def fn_body_region(self, header, name):
+        """(start, end) of the body of `fn name` inside `header`"""
         lo, hi = self.region(header)
-        what = f"{self.rel}::{(header + '::') if header else ''}{name}"
+        cands = [m for m in re.finditer(r"(?<![A-Za-z0-9_])fn\s+" + re.escape(name) + r"\s*[<(]", self.text[lo:hi])
+                 if self._depth_at(lo, lo + m.start()) == 0]
+        if len(cands) != 1:
+            raise XlateError(f"{self.rel}::{header or ''}::{name}: fn not found (or ambiguous)")
+        o = self.text.index("{", lo + cands[0].start())
+        return o + 1, self._match_brace(o)
+
+    def const(self, header, name, in_fn=None):
+        """`const NAME: type = expr;` inside header's braces, or inside the body of `in_fn` found there"""
+        lo, hi = self.fn_body_region(header, in_fn) if in_fn else self.region(header)
+        what = f"{self.rel}::{(header + '::') if header else ''}{(in_fn + '::') if in_fn else ''}{name}"
         ms = list(re.finditer(r"(?<![A-Za-z0-9_])const\s+" + re.escape(name) + r"\s*:", self.text[lo:hi]))
         if not ms:
             raise XlateError(f"{what}: const not found")
@@ -702,6 +712,54 @@ class Source:
         e = p.expr()
         p.expect(";")
         return {"type": ty, "expr": e, "what": what}
+
+    def let_range(self, header, fn, first, last):
+        """the statements from `let first = …;` to `let last = …;` (inclusive) in the body of `fn`, as a block AST"""
+        lo, hi = self.fn_body_region(header, fn)
+        what = f"{self.rel}::{(header + '::') if header else ''}{fn} [let {first} … let {last}]"
+        body = self.text[lo:hi]
+        a = list(re.finditer(r"(?<![A-Za-z0-9_])let\s+(?:mut\s+)?" + re.escape(first) + r"\s*[:=]", body))
+        b = list(re.finditer(r"(?<![A-Za-z0-9_])let\s+(?:mut\s+)?" + re.escape(last) + r"\s*[:=]", body))
+        if len(a) != 1 or len(b) != 1:
+            raise XlateError(f"{what}: the delimiting `let`s are not unique ({len(a)}, {len(b)})")
+        if b[0].start() < a[0].start():
+            raise XlateError(f"{what}: `let {last}` comes before `let {first}`")
+        end = body.index(";", b[0].end())
+        while body.count("(", b[0].start(), end) != body.count(")", b[0].start(), end):
+            end = body.index(";", end + 1)
+        text = body[a[0].start():end + 1]
+        p = Parser(tokenize("{" + text + "}"), what)
+        blk = p.block()
+        if blk[2] is not None or any(st[0] != "let" for st in blk[1]):
+            raise XlateError(f"{what}: the range is not a sequence of `let` statements")
+        return blk, what
+
+    def field_call(self, header, fn, field, callee):
+        """every `field: callee(…)` inside the body of `fn`: the parsed call expressions"""
+        lo, hi = self.fn_body_region(header, fn)
+        what = f"{self.rel}::{(header + '::') if header else ''}{fn} {field}: {callee}(…)"
+        body = self.text[lo:hi]
+        out = []
+        for m in re.finditer(r"(?<![A-Za-z0-9_])" + re.escape(field) + r"\s*:\s*" + re.escape(callee) + r"\s*\(", body):
+            o = m.end() - 1
+            depth, i = 0, o
+            while True:
+                if body[i] == "(":
+                    depth += 1
+                elif body[i] == ")":
+                    depth -= 1
+                    if depth == 0:
+                        break
+                i += 1
+            start = body.index(callee, m.start())
+            p = Parser(tokenize(body[start:i + 1]), what)
+            e = p.expr()
+            if p.peek()[0] != "eof":
+                p.fail("trailing tokens")
+            out.append(e)
+        if not out:
+            raise XlateError(f"{what}: not found")
+        return out, what
 
     def _item_with_attrs(self, kw, name):
         m = list(re.finditer(r"(?<![A-Za-z0-9_])" + kw + r"\s+" + re.escape(name) + r"(?![A-Za-z0-9_])", self.text))
@@ -1118,7 +1176,7 @@ class Lower:
     def std_const(self, mod, name):
         table = {
             ("f64", "PI"): "KOps.pi",
-            ("f64", "TAU"): "((2.0 : α) * KOps.pi)",
+            ("f64", "TAU"): "(tau : α)",
             ("f64", "FRAC_PI_2"): "(KOps.pi / (2.0 : α))",
             ("f64", "FRAC_PI_4"): "(KOps.pi / (4.0 : α))",
             ("f64", "FRAC_PI_8"): "(KOps.pi / (8.0 : α))",
@@ -1461,7 +1519,8 @@ class Lower:
         for (pn, pt, _), a in zip(params, args):
             pt = self.resolve_type(pt)
             ra = self.coerce(self.expr(a, env, pt), pt)
-            lets.append(f"let {self.lname(pn)} := {ra.text}")
+            if ra.text != self.lname(pn):       # `let x := x` would be a no-op
+                lets.append(f"let {self.lname(pn)} := {ra.text}")
             env2[pn] = (self.lname(pn), pt)
         self.inline_depth += 1
         body = self.block(fd["body"], env2, self.resolve_type(fd["ret"]), tail=True)
